@@ -65,6 +65,10 @@ var targets = []string{
 	"Route.matchesAccept",
 	"Route.matchesContentType",
 	"templateToRegularExpression",
+	"RouterJSR311.detectRoute",
+	"CurlyRouter.detectWebService",
+	"CurlyRouter.selectRoutes",
+	"Container.computeAllowedMethods",
 }
 
 // fuel: bound of the `for { … }` loops of a function, as a Go expression over its parameters
@@ -171,7 +175,7 @@ func leanType(e ast.Expr) string {
 			return "Str"
 		}
 	}
-	return ""
+	return leanTypeExt(e)
 }
 
 func paren(t string) string {
@@ -193,6 +197,8 @@ func zero(t string) string {
 		return "(none : GoErr)"
 	case strings.HasPrefix(t, "List "):
 		return "([] : " + t + ")"
+	case strings.HasPrefix(t, "Option "):
+		return "(none : " + t + ")"
 	}
 	fail("no zero value for %s", t)
 	return ""
@@ -203,6 +209,8 @@ func zero(t string) string {
 
 type scope struct {
 	vars   map[string]bool
+	names  map[string]string // Go name -> Lean name, when it had to be renamed
+	types  map[string]ast.Expr
 	parent *scope
 }
 
@@ -218,18 +226,21 @@ func (s *scope) has(n string) bool {
 type extra struct{ name, typ, text string }
 
 type tr struct {
-	key      string
-	fd       *ast.FuncDecl
-	recv     string            // receiver variable name ("" if none)
-	structOf map[string]string // variable (receiver / parameter) -> struct type name
-	extras   []extra
-	byText   map[string]int
-	results  []string // Lean result types
-	named    []string // names of named results
-	buffers  map[string]bool
-	tmp      int
-	out      *bytes.Buffer
-	sc       *scope
+	key         string
+	fd          *ast.FuncDecl
+	recv        string            // receiver variable name ("" if none)
+	structOf    map[string]string // variable (receiver / parameter) -> struct type name
+	extras      []extra
+	byText      map[string]int
+	results     []string // Lean result types
+	named       []string // names of named results
+	buffers     map[string]bool
+	recvStruct  string              // struct type of the receiver ("" if none)
+	paramStruct map[string]ast.Expr // parameters (and the receiver) passed as structures -> declared type
+	loops       []string            // labels of the enclosing loops ("" = unlabelled)
+	tmp         int
+	out         *bytes.Buffer
+	sc          *scope
 }
 
 func (t *tr) fresh() string { t.tmp++; return fmt.Sprintf("t'%d", t.tmp) }
@@ -238,6 +249,38 @@ func (t *tr) line(ind int, format string, a ...interface{}) {
 	t.out.WriteString(strings.Repeat("  ", ind))
 	fmt.Fprintf(t.out, format, a...)
 	t.out.WriteString("\n")
+}
+
+// lname: the Lean name of a Go local
+func (t *tr) lname(n string) string {
+	for c := t.sc; c != nil; c = c.parent {
+		if c.vars[n] {
+			if ln, ok := c.names[n]; ok {
+				return ln
+			}
+			return mangle(n)
+		}
+	}
+	return mangle(n)
+}
+
+// bindName declares n in the current scope; Lean does not allow a mutable variable to be shadowed, so a
+// name that an enclosing scope of the function body already has gets a fresh Lean name
+func (t *tr) bindName(n string) {
+	shadow := false
+	for c := t.sc.parent; c != nil && c.parent != nil; c = c.parent { // the outermost scope holds the parameters
+		if c.vars[n] {
+			shadow = true
+		}
+	}
+	t.sc.vars[n] = true
+	if shadow {
+		t.tmp++
+		if t.sc.names == nil {
+			t.sc.names = map[string]string{}
+		}
+		t.sc.names[n] = fmt.Sprintf("%s'%d", mangle(n), t.tmp)
+	}
 }
 
 func (t *tr) push() { t.sc = &scope{vars: map[string]bool{}, parent: t.sc} }
@@ -361,6 +404,9 @@ func (t *tr) expr(e ast.Expr) (string, bool) {
 			fail("bare nil")
 		}
 		if t.sc.has(x.Name) {
+			return t.lname(x.Name), false
+		}
+		if _, ok := t.paramStruct[x.Name]; ok {
 			return mangle(x.Name), false
 		}
 		if c, ok := constVals[x.Name]; ok {
@@ -383,10 +429,19 @@ func (t *tr) expr(e ast.Expr) (string, bool) {
 		}
 		fail("unknown identifier %s", x.Name)
 	case *ast.SelectorExpr:
+		if v, ok := extConsts[src(x)]; ok {
+			return v, false
+		}
 		if n, ok := t.selectorLeaf(x); ok {
 			return n, false
 		}
+		if s, m, ok := t.typedSelector(x); ok {
+			return s, m
+		}
 		fail("selector %s", src(x))
+	case *ast.StarExpr:
+		a, _ := t.expr(x.X)
+		return "(← deref " + a + ")", true
 	case *ast.UnaryExpr:
 		s, m := t.expr(x.X)
 		switch x.Op {
@@ -394,11 +449,23 @@ func (t *tr) expr(e ast.Expr) (string, bool) {
 			return "(!" + s + ")", m
 		case token.SUB:
 			return "(-" + s + ")", m
+		case token.AND:
+			return "(some " + s + ")", m
 		}
 		fail("unary %s", x.Op)
 	case *ast.BinaryExpr:
 		if isNil(x.Y) && (x.Op == token.EQL || x.Op == token.NEQ) {
 			a, ma := t.expr(x.X)
+			if id, ok := t.typeOf(x.X).(*ast.Ident); ok && id.Name == "regexpMatch" {
+				// the result of FindStringSubmatch: nil = no match = the empty list
+				if x.Op == token.EQL {
+					return "(" + a + ").isEmpty", ma
+				}
+				return "(!(" + a + ").isEmpty)", ma
+			}
+			if _, isSlice := resolve(t.typeOf(x.X)).(*ast.ArrayType); isSlice {
+				fail("nil test of a slice: %s", src(x))
+			}
 			if x.Op == token.EQL {
 				return "(" + a + ").isNone", ma
 			}
@@ -460,10 +527,7 @@ func (t *tr) expr(e ast.Expr) (string, bool) {
 		}
 		return a, false
 	case *ast.CompositeLit:
-		if lt := leanType(x.Type); lt != "" && len(x.Elts) == 0 {
-			return zero(lt), false
-		}
-		fail("composite literal %s", src(x))
+		return t.composite(x)
 	case *ast.CallExpr:
 		return t.call(x)
 	}
@@ -487,6 +551,9 @@ func (t *tr) args(es []ast.Expr) ([]string, bool) {
 }
 
 func (t *tr) call(c *ast.CallExpr) (string, bool) {
+	if s, m, ok := t.typedCall(c); ok {
+		return s, m
+	}
 	name := ""
 	switch f := c.Fun.(type) {
 	case *ast.Ident:
@@ -497,7 +564,7 @@ func (t *tr) call(c *ast.CallExpr) (string, bool) {
 				// method of the receiver's type
 				name = recvName(t.fd) + "." + f.Sel.Name
 			} else if t.buffers[id.Name] && f.Sel.Name == "String" && len(c.Args) == 0 {
-				return mangle(id.Name), false
+				return t.lname(id.Name), false
 			} else {
 				name = id.Name + "." + f.Sel.Name
 			}
@@ -513,6 +580,18 @@ func (t *tr) call(c *ast.CallExpr) (string, bool) {
 			return "(Str.trim ' ' " + a + ")", m
 		}
 		fail("strings.TrimFunc with %s", src(c.Args[1]))
+	}
+	if name == "make" {
+		lt := leanType(c.Args[0])
+		if lt == "" || !(strings.HasPrefix(lt, "List ")) {
+			fail("make of %s", src(c.Args[0]))
+		}
+		if len(c.Args) >= 2 {
+			if b, ok := c.Args[1].(*ast.BasicLit); !ok || b.Value != "0" {
+				fail("make with a length other than 0: %s", src(c))
+			}
+		}
+		return zero(lt), false
 	}
 	if name == "fmt.Sprintf" {
 		// a format made of literal text and %s verbs only is a concatenation
@@ -546,7 +625,14 @@ func (t *tr) call(c *ast.CallExpr) (string, bool) {
 		if len(a) == 2 && !c.Ellipsis.IsValid() {
 			return "(push " + a[0] + " " + a[1] + ")", mon
 		}
+		if len(a) == 2 && c.Ellipsis.IsValid() {
+			return "(" + a[0] + " ++ " + a[1] + ")", mon
+		}
 		fail("append form %s", src(c))
+	case "NewError":
+		return "(some { code := " + a[0] + ", message := " + a[1] + ", header := [] } : GoErr)", mon
+	case "NewErrorWithHeader":
+		return "(some { code := " + a[0] + ", message := " + a[1] + ", header := " + a[2] + " } : GoErr)", mon
 	case "strings.HasPrefix":
 		return "(Str.hasPrefix " + a[1] + " " + a[0] + ")", mon
 	case "strings.HasSuffix":
@@ -631,9 +717,9 @@ func (t *tr) declare(ind int, name, val string, monadic bool) {
 	if name == "_" {
 		return
 	}
-	t.sc.vars[name] = true
+	t.bindName(name)
 	_ = monadic
-	t.line(ind, "let mut %s := %s", mangle(name), val)
+	t.line(ind, "let mut %s := %s", t.lname(name), val)
 }
 
 func (t *tr) assign(ind int, lhs ast.Expr, val string) {
@@ -645,25 +731,50 @@ func (t *tr) assign(ind int, lhs ast.Expr, val string) {
 		if !t.sc.has(l.Name) {
 			fail("assignment to %s which is not a local", l.Name)
 		}
-		t.line(ind, "%s := %s", mangle(l.Name), val)
+		t.line(ind, "%s := %s", t.lname(l.Name), val)
 	case *ast.IndexExpr:
 		m, ok := l.X.(*ast.Ident)
 		if !ok || !t.sc.has(m.Name) {
 			fail("indexed assignment %s", src(lhs))
 		}
 		k, _ := t.expr(l.Index)
-		t.line(ind, "%s := mapSet %s %s %s", mangle(m.Name), mangle(m.Name), k, val)
+		t.line(ind, "%s := mapSet %s %s %s", t.lname(m.Name), t.lname(m.Name), k, val)
 	default:
 		fail("assignment to %s", src(lhs))
+	}
+}
+
+func (t *tr) stmts(ind int, list []ast.Stmt) {
+	for i, s := range list {
+		// xs = xs[:0]: the in-place filter idiom (typed.go)
+		if as, ok := s.(*ast.AssignStmt); ok && as.Tok == token.ASSIGN && len(as.Lhs) == 1 && len(as.Rhs) == 1 {
+			if sl, ok := as.Rhs[0].(*ast.SliceExpr); ok && sl.Low == nil && sl.High != nil && src(sl.High) == "0" && src(sl.X) == src(as.Lhs[0]) {
+				xs := src(as.Lhs[0])
+				alias := ""
+				if i > 0 {
+					if prev, ok := list[i-1].(*ast.AssignStmt); ok && len(prev.Lhs) == 1 && len(prev.Rhs) == 1 && src(prev.Rhs[0]) == xs {
+						alias = src(prev.Lhs[0])
+					}
+				}
+				if why := inPlaceFilterOK(list[i+1:], xs, alias); why != "" {
+					fail("%s shares its backing array with a live slice: %s", src(as), why)
+				}
+				lt := leanType(t.typeOf(as.Lhs[0]))
+				if lt == "" {
+					fail("type of %s", xs)
+				}
+				t.assign(ind, as.Lhs[0], zero(lt))
+				continue
+			}
+		}
+		t.stmt(ind, s)
 	}
 }
 
 func (t *tr) block(ind int, b *ast.BlockStmt) {
 	t.push()
 	n := t.out.Len()
-	for _, s := range b.List {
-		t.stmt(ind, s)
-	}
+	t.stmts(ind, b.List)
 	if t.out.Len() == n {
 		t.line(ind, "pure ()")
 	}
@@ -691,6 +802,7 @@ func (t *tr) stmt(ind int, s ast.Stmt) {
 					t.buffers[n.Name] = true
 				}
 				t.declare(ind, n.Name, zero(lt), false)
+				t.setType(n.Name, vs.Type)
 			}
 		}
 	case *ast.AssignStmt:
@@ -708,8 +820,32 @@ func (t *tr) stmt(ind int, s ast.Stmt) {
 			if sel, ok := c.Fun.(*ast.SelectorExpr); ok {
 				if id, ok := sel.X.(*ast.Ident); ok && t.buffers[id.Name] && sel.Sel.Name == "WriteString" && len(c.Args) == 1 {
 					a, _ := t.expr(c.Args[0])
-					t.line(ind, "%s := %s ++ %s", mangle(id.Name), mangle(id.Name), a)
+					t.line(ind, "%s := %s ++ %s", t.lname(id.Name), t.lname(id.Name), a)
 					return
+				}
+			}
+		}
+		if c, ok := x.X.(*ast.CallExpr); ok {
+			if sel, ok := c.Fun.(*ast.SelectorExpr); ok {
+				// s.add(x) with `func (s *T) add(x) { *s = append(*s, x) }`
+				if id, ok := sel.X.(*ast.Ident); ok && t.sc.has(id.Name) && len(c.Args) == 1 {
+					if tn, ok := t.varType(id.Name).(*ast.Ident); ok && methodAppend[tn.Name+"."+sel.Sel.Name] {
+						a, _ := t.expr(c.Args[0])
+						t.line(ind, "%s := push %s %s", t.lname(id.Name), t.lname(id.Name), a)
+						return
+					}
+				}
+				// sort.Sort(xs) on a local of a named slice type: an uninterpreted permutation of Ext
+				if src(sel) == "sort.Sort" && len(c.Args) == 1 {
+					if id, ok := c.Args[0].(*ast.Ident); ok && t.sc.has(id.Name) {
+						if tn, ok := t.varType(id.Name).(*ast.Ident); ok {
+							lt := leanType(tn)
+							if lt != "" {
+								t.line(ind, "%s := %s %s", t.lname(id.Name), ext("sort.Sort_"+tn.Name, lt+" → "+lt), t.lname(id.Name))
+								return
+							}
+						}
+					}
 				}
 			}
 		}
@@ -723,8 +859,23 @@ func (t *tr) stmt(ind int, s ast.Stmt) {
 		t.forStmt(ind, x)
 	case *ast.RangeStmt:
 		t.rangeStmt(ind, x)
+	case *ast.LabeledStmt:
+		switch l := x.Stmt.(type) {
+		case *ast.RangeStmt:
+			t.rangeStmtL(ind, l, x.Label.Name)
+		default:
+			fail("label on %T", x.Stmt)
+		}
 	case *ast.BranchStmt:
 		if x.Label != nil {
+			// `continue L` from a loop nested directly in the loop labelled L: leave the inner loop
+			// with the flag set; the statement after the inner loop continues L
+			n := len(t.loops)
+			if x.Tok == token.CONTINUE && n >= 2 && t.loops[n-2] == x.Label.Name {
+				t.line(ind, "cont'%s := true", x.Label.Name)
+				t.line(ind, "break")
+				return
+			}
 			fail("labelled %s", x.Tok)
 		}
 		switch x.Tok {
@@ -742,7 +893,7 @@ func (t *tr) stmt(ind int, s ast.Stmt) {
 			}
 			var ns []string
 			for _, n := range t.named {
-				ns = append(ns, mangle(n))
+				ns = append(ns, t.lname(n))
 			}
 			t.line(ind, "return %s", tuple(ns))
 			return
@@ -790,9 +941,24 @@ func (t *tr) assignStmt(ind int, x *ast.AssignStmt) {
 	default:
 		fail("assignment operator %s", x.Tok)
 	}
+	var rtypes []ast.Expr
+	if len(x.Lhs) == len(x.Rhs) {
+		for _, r := range x.Rhs {
+			rtypes = append(rtypes, t.typeOf(r))
+		}
+	} else if c, ok := x.Rhs[0].(*ast.CallExpr); ok {
+		rtypes = t.resultTypes(c)
+	}
+	pos := 0
 	bind := func(l ast.Expr, val string) {
+		var ty ast.Expr
+		if pos < len(rtypes) {
+			ty = rtypes[pos]
+		}
+		pos++
 		if id, ok := l.(*ast.Ident); ok && x.Tok == token.DEFINE && !t.sc.vars[id.Name] {
 			t.declare(ind, id.Name, val, false)
+			t.setType(id.Name, ty)
 			return
 		}
 		t.assign(ind, l, val)
@@ -871,7 +1037,18 @@ func (t *tr) ifStmt(ind int, x *ast.IfStmt) {
 	}
 }
 
-func (t *tr) rangeStmt(ind int, x *ast.RangeStmt) {
+func (t *tr) rangeStmt(ind int, x *ast.RangeStmt) { t.rangeStmtL(ind, x, "") }
+
+// afterInner: behind a loop nested directly in a labelled loop, a set flag continues the labelled loop
+func (t *tr) afterInner(ind int) {
+	if n := len(t.loops); n >= 1 && t.loops[n-1] != "" {
+		t.line(ind, "if cont'%s then", t.loops[n-1])
+		t.line(ind+1, "continue")
+	}
+}
+
+func (t *tr) rangeStmtL(ind int, x *ast.RangeStmt, label string) {
+	defer t.afterInner(ind)
 	if x.Tok != token.DEFINE && (x.Key != nil || x.Value != nil) {
 		fail("range with assignment")
 	}
@@ -896,24 +1073,36 @@ func (t *tr) rangeStmt(ind int, x *ast.RangeStmt) {
 		}
 		if assigned(x.Body, n) {
 			rebind = append(rebind, n)
-			return mangle(n) + "'0"
+			t.bindName(n)
+			return t.lname(n) + "'0"
 		}
-		t.sc.vars[n] = true
-		return mangle(n)
+		t.bindName(n)
+		return t.lname(n)
 	}
+	et := elemType(t.typeOf(x.X))
+	defer func() { _ = et }()
 	if k == "_" {
 		t.line(ind, "for %s in %s do", pat(v), xs)
 	} else {
 		t.line(ind, "for (%s, %s) in enum %s do", pat(k), pat(v), xs)
 	}
 	for _, n := range rebind {
-		t.sc.vars[n] = true
-		t.line(ind+1, "let mut %s := %s'0", mangle(n), mangle(n))
+		t.line(ind+1, "let mut %s := %s'0", t.lname(n), t.lname(n))
 	}
+	t.setType(k, ast.NewIdent("int"))
+	t.setType(v, et)
+	if label != "" {
+		t.line(ind+1, "let mut cont'%s := false", label)
+	}
+	t.loops = append(t.loops, label)
 	t.block(ind+1, x.Body)
+	t.loops = t.loops[:len(t.loops)-1]
 }
 
 func (t *tr) forStmt(ind int, x *ast.ForStmt) {
+	defer t.afterInner(ind)
+	t.loops = append(t.loops, "")
+	defer func() { t.loops = t.loops[:len(t.loops)-1] }()
 	if x.Init == nil && x.Cond == nil && x.Post == nil {
 		f, ok := fuel[t.key]
 		if !ok {
@@ -959,8 +1148,8 @@ func (t *tr) forStmt(ind int, x *ast.ForStmt) {
 	b, _ := t.expr(cond.Y)
 	t.push()
 	defer t.pop()
-	t.sc.vars[iv.Name] = true
-	t.line(ind, "for %s in range %s %s do", mangle(iv.Name), a, b)
+	t.bindName(iv.Name)
+	t.line(ind, "for %s in range %s %s do", t.lname(iv.Name), a, b)
 	t.block(ind+1, x.Body)
 }
 
@@ -980,15 +1169,28 @@ func translate(key string) (text string, why string) {
 			text, why = "", u.why
 		}
 	}()
-	t := &tr{key: key, fd: fd, structOf: map[string]string{}, byText: map[string]int{}, buffers: map[string]bool{}, out: &bytes.Buffer{}}
+	t := &tr{key: key, fd: fd, structOf: map[string]string{}, byText: map[string]int{}, buffers: map[string]bool{}, out: &bytes.Buffer{}, paramStruct: map[string]ast.Expr{}}
 	t.push()
 	var params []string
+	flat := flattenRecv[key]
 	if fd.Recv != nil && len(fd.Recv.List) == 1 && len(fd.Recv.List[0].Names) == 1 {
 		t.recv = fd.Recv.List[0].Names[0].Name
-		t.structOf[t.recv] = recvName(fd)
+		t.recvStruct = recvName(fd)
+		if flat || !isGenStruct[t.recvStruct] {
+			t.structOf[t.recv] = recvName(fd)
+		} else {
+			// the receiver is passed as a structure
+			rt := fd.Recv.List[0].Type
+			t.paramStruct[t.recv] = rt
+			params = append(params, fmt.Sprintf("(%s : %s)", mangle(t.recv), leanType(rt)))
+			recvUsed[key] = true
+		}
 	}
 	for _, p := range fd.Type.Params.List {
 		lt := leanType(p.Type)
+		if st, _ := structName(p.Type); st != "" && (flat || !isGenStruct[st]) {
+			lt = "" // flattened into the fields that are read
+		}
 		for _, n := range p.Names {
 			if n.Name == "_" {
 				continue
@@ -1010,6 +1212,7 @@ func translate(key string) (text string, why string) {
 				continue
 			}
 			t.sc.vars[n.Name] = true
+			t.setType(n.Name, p.Type)
 			params = append(params, fmt.Sprintf("(%s : %s)", mangle(n.Name), lt))
 		}
 	}
@@ -1030,6 +1233,7 @@ func translate(key string) (text string, why string) {
 			t.results = append(t.results, lt)
 			t.named = append(t.named, n.Name)
 			t.declare(2, n.Name, zero(lt), false)
+			t.setType(n.Name, r.Type)
 		}
 	}
 	// parameters are assignable in Go: re-bind mutably those the body assigns
@@ -1041,10 +1245,9 @@ func translate(key string) (text string, why string) {
 		}
 	}
 	t.push()
-	for _, s := range fd.Body.List {
-		t.stmt(2, s)
-	}
+	t.stmts(2, fd.Body.List)
 	t.pop()
+	flatExtras[key] = t.extras
 	var extras []string
 	var leaves []string
 	for _, e := range t.extras {
@@ -1115,9 +1318,12 @@ func main() {
 							for _, f := range st.Fields.List {
 								for _, n := range f.Names {
 									m[n.Name] = f.Type
+									structFieldOrder[s.Name.Name] = append(structFieldOrder[s.Name.Name], n.Name)
 								}
 							}
 							structFields[s.Name.Name] = m
+						} else {
+							typeDefs[s.Name.Name] = s.Type
 						}
 					case *ast.ValueSpec:
 						for i, n := range s.Names {
@@ -1143,6 +1349,9 @@ func main() {
 	for _, k := range targets {
 		isTarget[k] = true
 	}
+	for _, st := range genStructs {
+		isGenStruct[st] = true
+	}
 	var defs []string
 	var status []string
 	for _, k := range targets {
@@ -1160,6 +1369,7 @@ func main() {
 	b.WriteString("/- GENERATED by tools/goimp from the go-restful sources. Do not edit: regenerated on every run.\n")
 	b.WriteString("   Imperative functions of the package, one Go statement per do-element (see tools/goimp/main.go). -/\n")
 	b.WriteString("import Restful.Imp.Prelude\nset_option linter.unusedVariables false\nnamespace Restful.ImpGen\nopen Restful Restful.Imp\n\n")
+	b.WriteString(genStructDecls())
 	b.WriteString("/-- what the translated functions call but the translation does not interpret -/\nstructure Ext where\n")
 	var fs []string
 	for f := range extUsed {
@@ -1167,7 +1377,8 @@ func main() {
 	}
 	sort.Strings(fs)
 	for _, f := range fs {
-		fmt.Fprintf(&b, "  %s : %s\n", f, extUsed[f])
+		// every field has a default, so that a structure instance written before a field existed still elaborates
+		fmt.Fprintf(&b, "  %s : %s := default\n", f, extUsed[f])
 	}
 	if len(fs) == 0 {
 		b.WriteString("  unit : Unit := ()\n")
